@@ -10,6 +10,7 @@ import Kopf.Drv.C15
 import Kopf.Drv.C12
 import Kopf.Drv.C18
 import Kopf.Drv.C17
+import Kopf.Drv.C08
 namespace Kopf.Drv
 def echoHandler : DrvHandler := fun op args =>
   if op == "echo" then
@@ -17,5 +18,5 @@ def echoHandler : DrvHandler := fun op args =>
     | [j] => (toJ j).map (fun v => ok (ofJ v))
     | _ => none
   else none
-def allHandlers : List DrvHandler := [echoHandler, C01.handle, C04.handle, C05.handle, C02.handle, C14.handle, C11.handle, C16.handle, C15.handle, C12.handle, C18.handle, C17.handle]
+def allHandlers : List DrvHandler := [echoHandler, C01.handle, C04.handle, C05.handle, C02.handle, C14.handle, C11.handle, C16.handle, C15.handle, C12.handle, C18.handle, C17.handle, C08.handle]
 end Kopf.Drv
